@@ -242,3 +242,5 @@ def check(case: dict[str, Any], rec: Any) -> None:
 
 
 FINDINGS: dict[str, Any] = {}
+
+LEVEL_NOTE += ' Rounds 13-14: sources stamping in a daylight-saving zone across a clock change.'
